@@ -7,6 +7,7 @@ import (
 	"strings"
 
 	"code.gopub.tech/tpl/exp"
+	"code.gopub.tech/tpl/html"
 )
 
 func init() { props["C06"] = propC06 }
@@ -148,6 +149,104 @@ func propC06(c *ctx) error {
 			res.S2Compared++
 			if sget(m, "r") != got || (got == "found" && canonGo(gv) != "func" && sget(m, "v") != canonGo(gv)) {
 				res.disagree(J{"tree": t.j(), "name": name}, J{"r": got, "v": canonGo(gv)}, m, "scope tree lookup")
+			}
+		}
+	}
+	// ---- Combine never changes the scopes it is given: one parent chain of k layers shared by several children (what the
+	// engine does with the manager's global scope: every Execute combines ITS data with the same parent). Every child keeps
+	// seeing its own innermost scope, whatever was combined with the parent before or after it.
+	for k := 1; k <= 9; k++ {
+		var parent exp.Scope = exp.NewScope(map[string]any{"g": "g0", "layer0": 0})
+		for l := 1; l < k; l++ {
+			parent = exp.Combine(exp.NewScope(map[string]any{"g": fmt.Sprint("g", l), fmt.Sprint("layer", l): l}), parent)
+		}
+		if r.p(50) {
+			parent = exp.WithDefaultScope(parent)
+		}
+		nChildren := 2 + r.n(4)
+		children := make([]exp.Scope, nChildren)
+		grand := make([]exp.Scope, nChildren)
+		for ci := range children {
+			children[ci] = exp.Combine(exp.NewScope(map[string]any{"who": fmt.Sprint("child", ci), fmt.Sprint("only", ci): ci}), parent)
+		}
+		for ci := range children {
+			grand[ci] = exp.Combine(exp.NewScope(map[string]any{"deep": fmt.Sprint("deep", ci)}), children[ci])
+		}
+		for ci := range children {
+			for _, sc := range []exp.Scope{children[ci], grand[ci]} {
+				cs := J{"parent_layers": k, "children": nChildren, "child": ci}
+				res.eval("persist|"+jstr(cs)+fmt.Sprint(sc == grand[ci]), true, cs)
+				res.S3Checked++
+				res.count("combine_persistence")
+				who, err := sc.Get("who")
+				_, errOther := sc.Get(fmt.Sprint("only", (ci+1)%nChildren))
+				own, errOwn := sc.Get(fmt.Sprint("only", ci))
+				g, errG := sc.Get("g")
+				switch {
+				case err != nil || who != fmt.Sprint("child", ci):
+					res.violate(cs, fmt.Sprint("child", ci), fmt.Sprint(who, err), "a scope combined with a shared parent resolves a name in ANOTHER child's innermost scope (Combine changed its argument)")
+				case errOther == nil:
+					res.violate(cs, "absent", "found", "a name bound only in a sibling scope is visible")
+				case errOwn != nil || own != ci:
+					res.violate(cs, ci, fmt.Sprint(own, errOwn), "a scope combined with a shared parent lost its own binding")
+				case errG != nil || g != fmt.Sprint("g", k-1):
+					res.violate(cs, fmt.Sprint("g", k-1), fmt.Sprint(g, errG), "the shared parent chain does not resolve innermost-first any more")
+				}
+			}
+		}
+	}
+	// ---- the same at template level: a global scope of k layers, and renders that are live at the same time (a data
+	// function renders another template of the manager — or the same one — with other data, in the middle of an element).
+	// After the inner render returns, the outer element still resolves names in ITS data; names absent from its data fall
+	// through to the global layers, not to the data of the other render.
+	for k := 1; k <= 8; k++ {
+		var g exp.Scope = exp.NewScope(map[string]any{"site": "S0", "gonly": "G"})
+		for l := 1; l < k; l++ {
+			g = exp.Combine(exp.NewScope(map[string]any{"site": fmt.Sprint("S", l)}), g)
+		}
+		m := html.NewTplManager().SetGlobalScope(g)
+		page := `<p :text="${who}|${sub()}|${who}|${site}|${gonly}">o</p><ul><li :range="_, x : xs"><em :with="w := ${x}" :text="${w}${sub()}${who}${w}${x}">o</em></li></ul><i :if="${extra == nil}" :text="${sub()}${extra}">o</i>`
+		if err := m.Add("page", strings.NewReader(page)); err != nil {
+			res.SelfTest = append(res.SelfTest, "C06 nested-render template does not load: "+err.Error())
+			break
+		}
+		m.Add("inner", strings.NewReader(`<b :text="${who}/${extra}/${site}">o</b>`))
+		for variant := 0; variant < 4; variant++ {
+			tp, _ := m.GetTemplate("page")
+			innerName := []string{"inner", "page"}[variant%2]
+			viaGoroutine := variant >= 2
+			renderInner := func() string {
+				it, _ := m.GetTemplate(innerName)
+				var sb strings.Builder
+				it.Execute(&sb, map[string]any{"who": "INNER", "extra": "leak", "xs": []any{}, "sub": func() string { return "-" }})
+				return "[" + fmt.Sprint(sb.Len() > 0) + "]"
+			}
+			sub := func() string {
+				if viaGoroutine {
+					ch := make(chan string)
+					go func() { ch <- renderInner() }()
+					return <-ch
+				}
+				return renderInner()
+			}
+			var sb strings.Builder
+			var err error
+			func() {
+				defer func() {
+					if x := recover(); x != nil {
+						err = fmt.Errorf("panic: %v", x)
+					}
+				}()
+				err = tp.Execute(&sb, map[string]any{"who": "OUTER", "xs": []any{"a", "b"}, "sub": sub, "extra": nil})
+			}()
+			site := fmt.Sprint("S", k-1)
+			want := "<p>OUTER|[true]|OUTER|" + site + "|G</p><ul><li><em>a[true]OUTERaa</em></li><li><em>b[true]OUTERbb</em></li></ul><i>[true]&lt;nil&gt;</i>"
+			cs := J{"global_layers": k, "inner": innerName, "via_goroutine": viaGoroutine, "page": page}
+			res.eval("nested-global|"+jstr(cs), true, cs)
+			res.S3Checked++
+			res.count("nested_render_over_layered_global")
+			if err != nil || sb.String() != want {
+				res.violate(cs, want, J{"out": sb.String(), "err": fmt.Sprint(err)}, "with another render of the same manager live at the same time, a name is resolved in the other render's data / not in this render's data")
 			}
 		}
 	}
